@@ -283,19 +283,34 @@ def _fold(ctx, model):
            f"paths {sorted(seen)}" if need <= seen else
            f"fold() lacks paths {sorted(need - seen)}")
     # result construction
-    rets = [r for r in ast.walk(mem.node) if isinstance(r, ast.Return)]
-    srcs = sorted(ast.unparse(r.value).replace(" ", "") for r in rets)
-    ok = srcs == ["constructor((constant,*nonconstants))",
-                  "constructor(tuple(nonconstants))"]
+    shapes = set()
+    for ps in pss:
+        if ps.term != "return":
+            continue
+        rv = ps.retval
+        if not (rv[0] == "call" and rv[1] == "constructor" and len(rv[2]) == 1):
+            shapes.add("other")
+            continue
+        a = rv[2][0]
+        has_const = any(pol and v == ("global", "constants") or (
+            pol and isinstance(v, tuple) and v and v[0] in ("seq", "lit")
+            and False) for _, pol, v in ps.conds)
+        if a[0] == "lit" and len(a[2]) == 2 and a[2][0][0] == "call" and \
+                a[2][0][1] in ("reduce", "functools.reduce") and \
+                a[2][0][2][0] == ("param", "op") and a[2][1][0] == "star":
+            shapes.add("constant-first")
+        elif a[0] in ("seq", "lit") and not contains(
+                a, lambda t: t[0] == "call" and "reduce" in t[1]):
+            shapes.add("nonconstants-only")
+        else:
+            shapes.add("other")
+    ok = shapes == {"constant-first", "nonconstants-only"}
     ctx.ob("P/fold/result", ok, loc,
            "result = constructor(one folded constant, *non-constants) or "
            "constructor(non-constants)" if ok else
-           f"fold() builds its result differently: {srcs}")
-    src = ast.unparse(mem.node).replace(" ", "")
-    ok = "constant=reduce(op,constants)" in src and "ifconstants:" in src
-    ctx.ob("P/fold/single-constant", ok, loc,
-           "all constants are reduced into one with the operator" if ok else
-           "fold() does not reduce the constants into a single one with op")
+           f"fold() builds its result differently (shapes {sorted(shapes)}): it "
+           "must be constructor((reduce(op, constants), *nonconstants)) or "
+           "constructor(tuple(nonconstants))")
     # helpers
     ev = base.members.get("evaluate")
     ok = False
